@@ -24,6 +24,8 @@ PROGRAMS = {
     "let_bits": 'class I { bits<8> enc; } def i1 : I { let enc{3-0} = 5; let enc{7...4} = 0b1010; let enc{0} = 1; }',
     "encoding": ('class Inst<bits<4> opc, string asm> { bits<16> Enc; bits<4> rd; bits<4> rs; let Enc{15-12} = opc; let Enc{11-8} = rd; '
                  'let Enc{7-4} = rs; let Enc{3-0} = 0; string Asm = asm; }\ndef ADD : Inst<0b0001, "add">; def SUB : Inst<2, "sub"> { let rd = 1; }'),
+    "range_let_inherited": ('class Inst { bits<8> Encoding; bits<4> Low; }\nclass RR : Inst { let Encoding{7-6} = 0b11; let Encoding{0} = 1; }\n'
+                            'def ADD : RR { let Encoding = {1,1,0,0,0,0,0,1}; }\nclass Alias : RR { bits<8> Copy = Encoding; }\nclass RRI : RR; def SUB : RRI { let Encoding{3-0} = Low; }'),
     "bits_of_bits": 'class E<bits<8> v> { bits<8> val = v; bits<4> hi = v{7-4}; bits<4> lo = v{3...0}; bit top = v{7}; } def e : E<0xa5>;',
     "bits_literal_fields": 'class R<bits<3> n> { bits<5> HWEncoding; let HWEncoding{2-0} = n; let HWEncoding{4-3} = 0b11; } def r0 : R<0>;',
     # --- defm with classes after the multiclasses
@@ -75,6 +77,19 @@ PROGRAMS = {
 }
 KNOWN_FALSE = {"defm_record_use", "defm_in_multiclass", "forward_class"}
 
+# programs with exactly one fault that llvm-tblgen rejects: at least one diagnostic must cover the marked site «…»
+FAULTY = {
+    "range_let_then_narrow_whole_let": 'class Inst { bits<8> Encoding; }\nclass RR : Inst { let Encoding{3-0} = 0b1111; }\ndef ADD : RR { let Encoding = «{1,0,1,0}»; }',
+    "range_let_two_levels_down": 'class Inst { bits<8> Encoding; bits<4> Low; }\nclass RR : Inst { let Encoding{3-0} = Low; }\nclass RRI : RR;\ndef ADD : RRI { let Encoding = «Low»; }',
+    "bits_literal_too_wide": 'class A<bits<2> x> { bits<3> bad = «{ x, 0b10 }»; }\ndef a : A<1>;',
+    "list_paste_wrong_element": 'def u { list<string> bad = «[1] # [2]»; }',
+    "if_unrelated_records": 'class B; class Z; def b1 : B; def z1 : Z; def u { B bad = !if(1, b1, «z1»); }',
+    "defm_class_argument_type": 'class A; class Tag<int n> { int t = n; } multiclass M { def _a : A; } defm k : M, Tag<«"s"»>;',
+    "defm_first_parent_is_a_class": 'class A; class Tag<int n> { int t = n; } defm q : «Tag»<1>;',
+    "range_let_wrong_type": 'class I { bits<16> Inst; let Inst{3...0} = «"s"»; }',
+    "bit_range_too_narrow": 'def u { bits<4> b = {1,0,1,0}; bits<2> w = «b{3...0}»; }',
+}
+
 
 def tblgen_accepts(text, name):
     exe = "/usr/bin/llvm-tblgen"
@@ -113,6 +128,35 @@ def check(ck):
         if ds:
             ck.fail(["C13", "false-diagnostic", n], "well-formed program %r (accepted by llvm-tblgen) draws a diagnostic: %s" % (n, ds[0][3][:90]),
                     {"name": n, "text": PROGRAMS[n]}, json.dumps(ds)[:300], "[]")
+    # faulty programs: rejected by llvm-tblgen (audited), at least one diagnostic covers the marked site
+    fnames = sorted(FAULTY)
+    ftexts = {n: FAULTY[n].replace("\u00ab", "").replace("\u00bb", "") for n in fnames}
+    sites = {}
+    for n in fnames:
+        raw = FAULTY[n]
+        lo = len(raw[: raw.index("\u00ab")].encode())
+        hi = lo + len(raw[raw.index("\u00ab") + 1: raw.index("\u00bb")].encode())
+        sites[n] = (lo, hi)
+    faudit = {n: tblgen_accepts(ftexts[n], "faulty_" + n) for n in fnames}
+    fused = [n for n in fnames if faudit[n] is not True]
+    flines = ["ws " + json.dumps({"files": {"/main.td": ftexts[n] + "\n"}, "root": "/main.td", "queries": [["diagnostics"]]}) for n in fused]
+    fa = core.impl(flines, tag="vfi")
+    fb = core.model(flines, tag="vfm")
+    for n, x, y in zip(fused, fa, fb):
+        if x != y:
+            ndiff += 1
+            if ndiff <= 3:
+                ck.broke("correspondence", {"stream": "faulty_corpus", "case": n, "impl": x[:400], "model": y[:400]})
+        try:
+            ds = [d for _, l in json.loads(x)[0] for d in l]
+        except Exception:
+            continue
+        lo, hi = sites[n]
+        if not any((d[1] <= lo and hi <= d[2]) or (lo <= d[1] and d[2] <= hi) for d in ds):
+            ck.fail(["C13", "missed-fault", n], "the fault of program %r (rejected by llvm-tblgen) is not reported at its site: %s" % (n, json.dumps(ds)[:120]),
+                    {"name": n, "text": ftexts[n], "site": [lo, hi]}, json.dumps(ds)[:300], "a diagnostic covering %d..%d" % (lo, hi))
+    ck.count("faulty_corpus", len(fused), set(fused), sample={"name": fused[0], "text": ftexts[fused[0]][:120]} if fused else None)
+    ck.cov["streams"]["faulty_corpus"]["accepted_by_tblgen"] = [n for n in fnames if faudit[n] is True]
     ck.count("valid_corpus", len(used), set(used), sample={"name": used[0], "text": PROGRAMS[used[0]][:120]})
     st = ck.cov["streams"]["valid_corpus"]
     st["model_disagreements"] = ndiff
